@@ -206,6 +206,8 @@ def evaluate(job):
         # tests
         rc, o = run([PY, "-m", "pytest", "-q", "-x", "-p", "no:cacheprovider", "--timeout=60", PKG], cwd=tmp, env=env, timeout=400)
         row["tests_pass"] = rc == 0
+        if rc != 0:
+            return row  # the oracle matters only for variants the suite does not catch
         # oracle: demos
         failed = []
         for d in demos:
